@@ -295,7 +295,9 @@ impl Xot {
     /// assert!(xot.is_removed(text));
     /// ```
     pub fn is_removed(&self, node: Node) -> bool {
-        self.arena()[node.get()].is_removed()
+        // compare the handle's stamp with the slot's: a slot that has been reused for
+        // a new node must not make an old handle look live again
+        node.get().is_removed(self.arena())
     }
 
     /// Get parent node.
